@@ -353,6 +353,10 @@ class LexModel:
             if v in ("startline", "startcolumn"):
                 leaf.tempbuf.append((v, norm(st.value)))
                 return
+            if v not in ("pos", "ch", "line", "column", "fname"):
+                # a scratch local: cannot change the modelled scanner state
+                leaf.tempbuf.append(("local:" + v, norm(st.value)))
+                return
             raise LexShapeError(f"unrecognised scanner assignment: {txt}")
         if isinstance(st, ast.Expr) and isinstance(st.value, ast.Call) \
                 and norm(st.value.func) == "self.tokens.append" and len(st.value.args) == 1:
